@@ -595,7 +595,7 @@ def int_constraints(c, terms):
             return
         seen.add(t.get_id())
         if t.get_id() in c.ints:
-            out.append(z3.IsInt(t))
+            out.append(t == z3.ToReal(z3.Int(str(t) + '_int')))
         for ch in t.children():
             walk(ch)
     for t in terms:
